@@ -206,6 +206,17 @@ def run(trace, _retry=2):
     _ATTEMPT[0] = 2 - _retry
     try:
         out = _run(trace, flav, prov)
+    except (InvalidTraceLocal, AssertionError):
+        raise
+    except Exception as e:
+        # whatever a provider call raises that is not one of the documented cloud exceptions (AttributeError, KeyError,
+        # TypeError out of the provider's own code ...) is not "the documented error class"
+        import traceback
+        tb = traceback.extract_tb(e.__traceback__)
+        where = next(("%s:%d" % (os.path.basename(f.filename), f.lineno) for f in reversed(tb) if "/cloudsync/" in f.filename), "?")
+        if where == "?":
+            raise               # an exception of the harness itself stays a harness error
+        out = violation("call_result", "a provider call raised an undocumented exception: %r (at %s)" % (e, where))
     finally:
         try:
             prov.disconnect()
@@ -219,6 +230,10 @@ def run(trace, _retry=2):
         return run(trace, _retry=_retry - 1)
     _ATTEMPT[0] = 0
     return out
+
+
+class InvalidTraceLocal(Exception):
+    pass
 
 
 def _call(fn, *a):
